@@ -187,14 +187,24 @@ def run_case(ctx, repo, case):
     repo.set_mode(case["mode"], case)
     try:
         p = repo.tp(case["p"])
-        if case["op"] == "add":
-            p + _dur(ctx, repo, case["d"])
-        elif case["op"] == "radd":
-            _dur(ctx, repo, case["d"]) + p
-        elif case["op"] == "sub":
-            p - _dur(ctx, repo, case["d"])
-        else:
-            p.add_months(case["n"])
+        key0 = R.tp_key(p)
+        for again in (0, 1):
+            # (twice on the same operand: the operation is a function of
+            # its operands, which it leaves as they are)
+            if case["op"] == "add":
+                p + _dur(ctx, repo, case["d"])
+            elif case["op"] == "radd":
+                _dur(ctx, repo, case["d"]) + p
+            elif case["op"] == "sub":
+                p - _dur(ctx, repo, case["d"])
+            else:
+                p.add_months(case["n"])
+            if R.tp_key(p) != key0:
+                ctx.violation("operand.changed", "%s on %r changed its "
+                              "operand to %r (call %d)" % (
+                                  case["op"], key0, R.tp_key(p), again + 1),
+                              p=key0)
+                break
     finally:
         repo.set_mode("gregorian")
 
